@@ -36,6 +36,8 @@ class TraceRun:
         self.open_blocks = 0
         self.want_snapshots = False
         self.snapshots = []
+        self.exc_plan_line = None
+        self.exc_lib_frames = []
         self.calls = {}
         self.outcome = None        # "completed" | "raised:<cls>"
         self.outcome_msg = ""
@@ -321,6 +323,17 @@ class TraceRun:
             self.outcome = "raised:" + type(e).__name__
             self.outcome_msg = str(e)[:200]
             self.tb = traceback.format_exc(limit=6)
+            # where the exception left the script and which library functions it passed through
+            self.exc_plan_line = None
+            self.exc_lib_frames = []
+            tb = e.__traceback__
+            while tb is not None:
+                co = tb.tb_frame.f_code
+                if co.co_filename == fname:
+                    self.exc_plan_line = tb.tb_lineno
+                elif co.co_filename.endswith("branching.py") or co.co_filename.endswith("runtime.py"):
+                    self.exc_lib_frames.append(co.co_name)
+                tb = tb.tb_next
         self.globals = g
         if rec.abort_fired:
             self.probe("abort_seam_fired")
